@@ -1,6 +1,7 @@
 import GateModel.Base.Line
 import GateModel.C01.Model
 import GateModel.C01.AES
+import GateModel.C01.Inflate
 import GateModel.C02.Spec
 /-
 Shared driver code for C01 (round trips through the real netmc writer/reader) and C02 (hostile streams
@@ -90,6 +91,14 @@ def mkZ (pairs : List (Bytes × Option Bytes)) (body : Bytes) : Option Bytes :=
   | some (_, r) => r
   | none => none
 
+/-- Check the zlib oracle of a case with the independent Lean inflate: every pair (body, some out) the harness
+    reports (Go's compress/zlib) must inflate to `out`.  Only positive entries are compared: on invalid streams
+    the exact error point of two inflate implementations may legitimately differ. -/
+def oracleOk (pairs : List (Bytes × Option Bytes)) : Bool :=
+  pairs.all fun (body, r) => match r with
+    | some out => Inflate.zlibInflate body (out.length + 1) == some out
+    | none => true
+
 def aesE (key : Bytes) : Bytes → Bytes :=
   let rk := expandKeyBA key
   fun reg => aesBlockFast rk reg
@@ -112,7 +121,9 @@ def stepRt (c : Case) : String × String :=
     let stream := encodeAll thr D ps
     let wire := if sec = "-" then stream else let k := fastHex sec; cfb8Enc (aesE k) k stream
     let (got, e) := decodeAll cfg Z (ps.length + 2) stream
-    let model := "wire=" ++ showPayload wire ++ " read=" ++ showList got ++ " end=" ++ endClass e
+    let zok := oracleOk ((pairs.filter (fun (_, d) => !d.isEmpty)).map fun (p, d) => (d, some p))
+    let model := "wire=" ++ showPayload wire ++ " read=" ++ showList got ++ " end=" ++ endClass e ++
+      (if zok then "" else " zlib-oracle-disagrees-with-lean-inflate")
     -- spec: every non-empty payload comes back, in order, then a clean end
     let fits := ps.all fun p => p.isEmpty ||
       (decide ((encodeFrame thr D p).length ≤ maxFrame) && decide (p.length ≤ cfg.cap))
@@ -142,7 +153,9 @@ def stepSw (c : Case) : String × String :=
     let E := aesE k
     let wire := encodeAll thr D ps1 ++ cfb8Enc E k (encodeAll thr D ps2)
     let (got, e) := decodeSwitch cfg Z E k ps1.length (ps2.length + 2) wire
-    let model := "wire=" ++ showPayload wire ++ " read=" ++ showList got ++ " end=" ++ endClass e
+    let zok := oracleOk ((pairs.filter (fun (_, d) => !d.isEmpty)).map fun (p, d) => (d, some p))
+    let model := "wire=" ++ showPayload wire ++ " read=" ++ showList got ++ " end=" ++ endClass e ++
+      (if zok then "" else " zlib-oracle-disagrees-with-lean-inflate")
     let fits := (ps1 ++ ps2).all fun p => !p.isEmpty &&
       (decide ((encodeFrame thr D p).length ≤ maxFrame) && decide (p.length ≤ cfg.cap))
     let want := showList (ps1 ++ ps2) ++ " end=eof"
@@ -167,7 +180,8 @@ def stepDec (c : Case) : String × String :=
       | _ => none
     let Z := mkZ pairs
     let (got, e) := decodeAll cfg Z (s.length + 2) s
-    let model := "read=" ++ showList got ++ " end=" ++ endClass e
+    let model := "read=" ++ showList got ++ " end=" ++ endClass e ++
+      (if oracleOk pairs then "" else " zlib-oracle-disagrees-with-lean-inflate")
     let (vgot, ve) := Gate.C02.velocityDecodeAll cfg Z (s.length + 2) s
     -- Velocity waits on an incomplete tail where gate reports EOF: both are "eof"
     let ref := "read=" ++ showList vgot ++ " end=" ++ endClass ve
